@@ -228,41 +228,45 @@ def rule_flag(ctx: Ctx):
     exempt = {"event_method": "wraps an Event call: awaitable only under the async engine, where wrappers await awaitable results",
               "attr_method": "plain attribute read (attrgetter), not a call of a user function"}
     n = 0
-    for fn in ctx.p.all_functions():
-        if fn.parent is not None or isinstance(fn.node, ast.Lambda) or fn.cls is not None and fn.name.startswith("__"):
+    for b in ctx.p.all_functions():
+        if isinstance(b.node, ast.Lambda) or ctx.is_new(b):
             continue
-        closures = [f for f in fn.module.all_functions if f.parent is fn]
-        # include closures of nested builders (build_custom_operator.custom_comparator.decorated)
-        builders = [(fn, closures)] + [(c, [g for g in fn.module.all_functions if g.parent is c]) for c in closures]
-        for b, cls_ in builders:
-            ma_closures = []
-            for c in cls_:
-                for node in own_nodes(c.node):
-                    if isinstance(node, ast.Call):
-                        res = ctx.r.resolve_in(node, c)
-                        if any(t in MA_SLOTS for t in res.tags):
-                            ma_closures.append(c)
-                            break
-            if not ma_closures:
+        cls_ = [c for c in b.module.all_functions if c.parent is b]
+        ma_closures = []
+        for c in cls_:
+            for node in own_nodes(c.node):
+                if isinstance(node, ast.Call):
+                    res = ctx.r.resolve_in(node, c)
+                    if any(t in MA_SLOTS for t in res.tags):
+                        ma_closures.append(c)
+                        break
+        if not ma_closures:
+            continue
+        names = {c.name for c in ma_closures}
+        # the closure must be what the builder hands out (directly, or through a labelling helper that returns it)
+        flagged = {}
+        handed_out = False
+        for p in ctx.paths(b, inline=None, exc_edges="none"):
+            if p.kind != "return":
                 continue
-            returned = {show(r.value) for r in own_nodes(b.node) if isinstance(r, ast.Return) and r.value is not None}
-            ma_closures = [c for c in ma_closures if c.name in returned]
-            if not ma_closures:
-                continue
-            n += 1
-            if b.name in exempt:
-                rep.ok("C05.flag", b.loc(), f"builder `{b.qualname}` is exempt: {exempt[b.name]}")
-                continue
-            names = {c.name for c in ma_closures}
-            sets = [s for s in own_nodes(b.node) if isinstance(s, ast.Assign) and any(
-                isinstance(t, ast.Attribute) and t.attr == "is_coroutine" and isinstance(t.value, ast.Name) and t.value.id in names
-                for t in s.targets)]
-            rep.check(bool(sets), "C05.flag", b.loc(),
-                      f"builder `{b.qualname}` publishes `is_coroutine` on the callable it returns (engine selection can see async operands)",
-                      b.key, f"return {sorted(names)[0]}  # no `.is_coroutine = ...`")
-            for s in sets:
-                v = show(s.value)
-                rep.check(v not in ("False", "None"), "C05.flag", b.loc(s), f"`{b.qualname}` derives is_coroutine from what it wraps", b.key, norm_stmt(s))
+            v = p.value
+            if isinstance(v, ast.Name) and v.id.startswith("$def:") and v.id.split(".")[-1] in names:
+                handed_out = True
+            for e in p.of("store"):
+                if e.x.get("attr") == "is_coroutine" and isinstance(e.term.value, ast.Name) and e.term.value.id.startswith("$def:") \
+                        and e.term.value.id.split(".")[-1] in names:
+                    flagged[show(e.x["value"])] = e
+        if not handed_out:
+            continue
+        n += 1
+        if b.name in exempt:
+            rep.ok("C05.flag", b.loc(), f"builder `{b.qualname}` is exempt: {exempt[b.name]}")
+            continue
+        rep.check(bool(flagged), "C05.flag", b.loc(),
+                  f"builder `{b.qualname}` publishes `is_coroutine` on the callable it returns (engine selection can see async operands)",
+                  b.key, f"return {sorted(names)[0]}  # no `.is_coroutine = ...`")
+        for vtxt, e in flagged.items():
+            rep.check(vtxt not in ("False", "None"), "C05.flag", e.loc(), f"`{b.qualname}` derives is_coroutine from what it wraps", b.key, norm_stmt(e.node))
     rep.floor("C05.flag", "builders wrapping a callback slot", n, 5)
     # the adapter's flag comes from the signature, which comes from iscoroutinefunction
     fc = ctx.fn("SignatureAdapter.from_callable")
